@@ -33,6 +33,10 @@ P = {
              theorems=['C03_step', 'C03_two_tables']),
  'C04': dict(families=[('capacity', 150, 2500, 120), ('core', 100, 1500, 120), ('clone', 40, 600, 120)], aspects='RSA', profiles=['debug', 'release'],
              theorems=['C04_capacity_ge_len', 'C04_headroom_invariant', 'C04_full_implies_no_resize', 'C04_sizing_keeps_headroom', 'C04_fill']),
+ 'C08': dict(families=[('iter', 150, 2500, 120), ('mixed', 80, 1200, 120)], aspects='RSD', profiles=['debug', 'release'],
+             theorems=['C08_iter_each_once', 'C08_exact_len', 'C08_keys_values_same_order', 'C08_drain', 'C08_into_iter']),
+ 'C09': dict(families=[('iter', 200, 3000, 120), ('mixed', 60, 1000, 120)], aspects='RSDK', profiles=['debug'],
+             theorems=['C09_retain', 'C09_drain_filter', 'C09_panicking_predicate_keeps_invariant']),
  'C10': dict(families=[('capacity', 200, 3000, 120), ('mixed', 60, 1000, 120)], aspects='RSA', profiles=['debug', 'release'],
              theorems=['C10_with_capacity', 'C10_reserve', 'C10_reserved_inserts', 'C10_try_reserve_err', 'C10_reserve_panic', 'C10_never_silent', 'C10_shrink']),
  'C05': dict(families=[('mixed', 120, 2000, 120), ('entry', 80, 1500, 120), ('iter', 80, 1500, 120)], aspects='RS', profiles=['debug', 'release'],
